@@ -6,6 +6,16 @@ def G(name, cfg, module="Gen_Fn.tla", **kw):
     d.update(kw)
     return d
 
+def M(name, module, cfg, **kw):
+    d = {"name": name, "module": module, "cfg_quick": cfg, "cfg_thorough": cfg.replace(".cfg", "_T.cfg")}
+    d.update(kw)
+    return d
+
+MC_POLY = M("poly", "MC_Poly.tla", "MC_Poly.cfg")
+MC_INST = M("instsm", "MC_InstSM.tla", "MC_InstSM.cfg")
+MC_INTERVAL = {"name": "interval", "module": "MC_Interval.tla", "cfg_quick": "MC_Interval.cfg"}
+MC_EVALDEPS = {"name": "evaldeps", "module": "EvalDeps.tla", "cfg_quick": "EvalDeps_Q.cfg", "cfg_thorough": "EvalDeps.cfg"}
+
 def D(group, nq, nt):
     return {"group": group, "n_quick": nq, "n_thorough": nt}
 
@@ -19,27 +29,32 @@ def schema_events(wd, quick, seed):
 
 PLAN = {
     "C01": {
+        "mc": [MC_POLY],
         "gen": [G("eval", "Gen_Fn_Eval.cfg")],
         "drive": [D("eval_fn", 3000, 300000)],
         "exhaustive_note": "all function messages with <=3 linear terms / <=2 quadratic entries (+optional linear part) / <=2 monomials of length <=3 over ids {1,2}, coefficients {-1,0,2,1/2}, x 9 states (6 complete, 3 missing a variable) x 2 entry points",
     },
     "C02": {
+        "mc": [MC_POLY],
         "gen": [G("arith", "Gen_Fn_Arith.cfg"), G("arithdeep", "Gen_Fn_ArithDeep.cfg", tier="thorough"), G("fninfo", "Gen_Fn_FnInfo.cfg")],
         "drive": [D("arith", 3000, 300000)],
         "exhaustive_note": "every (op, lhs kind, rhs kind) the API defines (107 + 7 negations) x a thin operand family per kind",
     },
     "C03": {
+        "mc": [MC_POLY, MC_INST],
         "gen": [G("partial", "Gen_Fn_Partial.cfg")],
         "drive": [D("partial_fn", 3000, 200000), D("commute", 800, 40000)],
     },
     "C04": {
+        "mc": [MC_POLY, MC_INST, MC_EVALDEPS],
         "gen": [G("subst", "Gen_Fn_Subst.cfg")],
         "drive": [D("subst_fn", 2000, 100000), D("inst_subst", 800, 40000), D("deps_order", 300, 5000)],
     },
-    "C05": {"drive": [D("evaluate", 2000, 100000)]},
-    "C06": {"drive": [D("samples", 1000, 50000)]},
+    "C05": {"mc": [MC_INST], "drive": [D("evaluate", 2000, 100000)]},
+    "C06": {"mc": [MC_INST], "drive": [D("samples", 1000, 50000)]},
     "C07": {
         "schema": True,
+        "mc": [M("wire", "MC_Wire.tla", "MC_Wire.cfg")],
         "gen": [G("wire", "Gen_Wire.cfg", module="Gen_Wire.tla")],
         "drive": [D("wire", 600, 20000)],
         "static": [schema_events],
@@ -51,14 +66,15 @@ PLAN = {
         "drive": [D("validate", 500, 20000)],
         "exhaustive_note": "every single fault (quick) / every ordered pair of faults (thorough) of two base instances: duplicate ids (vars; constraints within and across lists), undefined ids at each position, each required field unset, each invalid bound shape, repeated ids in hints",
     },
-    "C09": {"drive": [D("penalty", 1000, 50000)]},
-    "C10": {"drive": [D("with_parameters", 1500, 60000)]},
-    "C11": {"drive": [D("pubo", 1000, 40000)]},
-    "C12": {"drive": [D("log_encode", 1000, 50000)]},
-    "C13": {"drive": [D("slack", 1000, 40000)]},
-    "C14": {"drive": [D("relax_restore", 600, 30000)]},
-    "C15": {"drive": [D("as_min", 500, 20000), D("best", 1500, 60000)]},
+    "C09": {"mc": [MC_INST], "drive": [D("penalty", 1000, 50000)]},
+    "C10": {"mc": [MC_INST], "drive": [D("with_parameters", 1500, 60000)]},
+    "C11": {"mc": [MC_POLY], "drive": [D("pubo", 1000, 40000)]},
+    "C12": {"mc": [M("logencode", "MC_LogEncode.tla", "MC_LogEncode.cfg")], "drive": [D("log_encode", 1000, 50000)]},
+    "C13": {"mc": [M("slack", "MC_Slack.tla", "MC_Slack.cfg", workers=12)], "drive": [D("slack", 1000, 40000)]},
+    "C14": {"mc": [MC_INST], "drive": [D("relax_restore", 600, 30000)]},
+    "C15": {"mc": [MC_INST, {"name": "best", "module": "MC_Best.tla", "cfg_quick": "MC_Best.cfg"}], "drive": [D("as_min", 500, 20000), D("best", 1500, 60000)]},
     "C17": {
+
         "gen": [G("mps", "Gen_Mps.cfg", module="Gen_Mps.tla"),
                 G("mpsrand", "Gen_MpsRand.cfg", module="Gen_Mps.tla", models=("mps_models", 300, 20000))],
         "exhaustive_note": "20 bound scenarios x marker x 8 layouts; 3 row types x 3 RHS x 4 ranges x 3 objective RHS x 2 layouts; 5 sense forms x 8 layouts x 3 readers; 8 error classes x 8 layouts",
@@ -78,6 +94,7 @@ PLAN = {
         "chunk": 200, "unique_names": True,
     },
     "C16": {
+        "mc": [MC_INTERVAL],
         "gen": [G("bound", "Gen_Fn_Bound.cfg"), G("contains", "Gen_Fn_Contains.cfg"), G("evalbound", "Gen_Fn_EvalBound.cfg"), G("content", "Gen_Fn_Content.cfg")],
         "drive": [D("eval_bound", 2000, 100000), D("content_factor", 2000, 100000)],
         "exhaustive_note": "all 43 valid intervals over {-inf,-3,-1,-1/2,0,1/2,1,2,+inf}: all pairs for + and x, exponents 0..6, 4 scalings",
@@ -89,20 +106,20 @@ OWN = {
     "C02": {"arith": "*", "fn_info": "*"},
     "C03": {"partial_fn": "*", "inst_partial": "*", "commute": "*"},
     "C04": {"subst_fn": "*", "inst_subst": "*", "deps_order": "*"},
-    "C05": {"drive": [D("evaluate", 2000, 100000)]},
-    "C06": {"drive": [D("samples", 1000, 50000)]},
+    "C05": {"mc": [MC_INST], "drive": [D("evaluate", 2000, 100000)]},
+    "C06": {"mc": [MC_INST], "drive": [D("samples", 1000, 50000)]},
     "C08": {
         "gen": [G("faults", "Gen_Validate.cfg", module="Gen_Validate.tla")],
         "drive": [D("validate", 500, 20000)],
         "exhaustive_note": "every single fault (quick) / every ordered pair of faults (thorough) of two base instances: duplicate ids (vars; constraints within and across lists), undefined ids at each position, each required field unset, each invalid bound shape, repeated ids in hints",
     },
-    "C09": {"drive": [D("penalty", 1000, 50000)]},
-    "C10": {"drive": [D("with_parameters", 1500, 60000)]},
-    "C11": {"drive": [D("pubo", 1000, 40000)]},
-    "C12": {"drive": [D("log_encode", 1000, 50000)]},
-    "C13": {"drive": [D("slack", 1000, 40000)]},
-    "C14": {"drive": [D("relax_restore", 600, 30000)]},
-    "C15": {"drive": [D("as_min", 500, 20000), D("best", 1500, 60000)]},
+    "C09": {"mc": [MC_INST], "drive": [D("penalty", 1000, 50000)]},
+    "C10": {"mc": [MC_INST], "drive": [D("with_parameters", 1500, 60000)]},
+    "C11": {"mc": [MC_POLY], "drive": [D("pubo", 1000, 40000)]},
+    "C12": {"mc": [M("logencode", "MC_LogEncode.tla", "MC_LogEncode.cfg")], "drive": [D("log_encode", 1000, 50000)]},
+    "C13": {"mc": [M("slack", "MC_Slack.tla", "MC_Slack.cfg", workers=12)], "drive": [D("slack", 1000, 40000)]},
+    "C14": {"mc": [MC_INST], "drive": [D("relax_restore", 600, 30000)]},
+    "C15": {"mc": [MC_INST, {"name": "best", "module": "MC_Best.tla", "cfg_quick": "MC_Best.cfg"}], "drive": [D("as_min", 500, 20000), D("best", 1500, 60000)]},
     "C17": {"mps_load": "*"},
     "C18": {"mps_roundtrip": "*"},
     "C19": {"qplib_load": "*"},
